@@ -45,6 +45,10 @@ def instances(tier, seed):
                     out.append(dict(name='prepass:%s/%d/first=%s' % (fn, n, cls[0]), stage='prepass', fn=fn, n=n, first=k))
             else:
                 out.append(dict(name='prepass:%s/%d' % (fn, n), stage='prepass', fn=fn, n=n))
+    # directed long lines: concrete texts beyond the symbolic length bound (64-bit extremes of the calculator, deep nesting,
+    # long runs of one special character); they run through the same path, the calculator body included
+    for k, text in enumerate(DIRECTED):
+        out.append(dict(name='directed/%d' % k, stage='directed', n=0, text=text))
     # the largest instance is split by its first character class so that 16 workers share it
     big = [i for i in out if i['n'] == b['cmdline'] and i['stage'] == 'cmdline']
     for i in big:
@@ -52,9 +56,17 @@ def instances(tier, seed):
         for k, cls in enumerate(FIRST_CLASSES):
             out.append(dict(i, name='%s/first=%s' % (i['name'], cls[0]), first=k))
     for i in out:
-        if i['n'] >= 3: i['_split'] = 5
+        if i['n'] >= 3 and i['stage'] != 'directed': i['_split'] = 5
     out.sort(key=lambda i: -i['n'])
     return out
+
+DIRECTED = ['-9223372036854775808 / -1', '(0 - 9223372036854775807 - 1) / (0 - 1)', '9223372036854775807 + 1', '-9223372036854775808 - 1',
+            '9223372036854775807 * 9223372036854775807', '2 ^ 63', '2 ^ 64', '-2 ^ 63', '0 ^ 0', '1 / 0', '1.0 / 0', '0 / 0', '1 / 0.0',
+            '99999999999999999999 + 1', '1e3 + 1', '1.5 ^ 2', '9223372036854775807 / -1', '-9223372036854775808 * -1', '7 / 2 * 2',
+            '((((((((((1))))))))))+1', '1 +', '(1 + 2', '1 + 2)', '1 ++ 2', '1 .. 2', '. + 1', '2 ^ 3 ^ 2', '2 ^ -1', '10 - 3 - 4 - 5 - 6',
+            '((((((((((((', '))))))))))))', '$($($($(', '${${${${', '"' * 15, "'" * 15, '`' * 7, '\\' * 9 + '\\', 'a' * 60, '| ' * 8, '&& ' * 10, '; ' * 8,
+            '> ' * 8, '< ' * 8, '{' * 12 + '}' * 12, '{1..2}' * 4, '~' * 9, '*' * 9, '$' * 7, '#' * 9, '!' * 9, 'a=' * 10, '$?' * 10,
+            'echo ' + '$A' * 5, 'echo "' + '$(' * 6, 'x `' * 5, 'a\\ ' * 12, 'echo {a,b}{c,d}{e,f}{g,h}', 'echo {1..20..3}{1..3}']
 
 # partition of the first character (for parallelism only; the union is all scalars)
 FIRST_CLASSES = [('sp', [32]), ('dq', [34]), ('sq', [39]), ('bq', [96]), ('bs', [92]), ('dollar', [36]), ('pipe', [124]), ('amp', [38]),
@@ -112,6 +124,12 @@ def body(inst):
     n = inst['n']
     def h(I):
         install_stubs(I)
+        if inst['stage'] == 'directed':
+            for k_ in ('calculate', 'calculator::calculate'): I.stubs.pop(k_, None)      # the calculator body runs (pest model)
+            line = lit(inst['text']); I.h_line = line
+            cell = [hlib.mk_shell(I)]
+            I.call_fn('run_command_line', [Ref(cell, 0), line, False, False])
+            return {'done': 'run_command_line'}
         cs = [I.sym_char('c%d' % i) for i in range(n)]
         if 'first' in inst and n > 0:
             I.ctx.assume(first_constraint(cs[0], inst['first']))
@@ -170,6 +188,8 @@ def binary_run(line, timeout=4, files=()):
         shutil.rmtree(d, ignore_errors=True)
 
 def native_outcome(inst, line, files=()):
+    if inst['stage'] == 'directed':
+        return binary_run(' ' + line if line.startswith('-') else line, files=files)     # a leading blank keeps `-...` from being read as an option of cicada
     if inst['stage'] == 'cmdline':
         if line.startswith('-'):      # would be read as an option of cicada itself, not as a line
             return dict(outcome='skip')
@@ -204,6 +224,7 @@ def minimize_line(inst, line, outcome, files=()):
 def run_instance(prog, inst, tier, seed, deadline):
     seen = {}
     def line_of(l):
+        if inst['stage'] == 'directed': return inst['text']
         return ''.join(chr(l.inputs['c%d' % i]) for i in range(inst['n']))
     def site_key(where, msg):
         fn = (where or ['?'])[-1]
@@ -226,7 +247,7 @@ def run_instance(prog, inst, tier, seed, deadline):
         if out.get('outcome') == 'skip': return None
         if out.get('outcome') != 'crash':
             return dict(label='crash', line=line, key='unreproduced-crash:%s:%s' % sk, site=l.msg, where=l.where, native=out, files=files)
-        mn = minimize_line(inst, line, 'crash', files)
+        mn = line if inst['stage'] == 'directed' else minimize_line(inst, line, 'crash', files)
         seen.setdefault(sk, {'n': 0, 'min': mn})['n'] += 1
         return dict(label='crash', line=line, key='crash:%s:%s' % sk, min_line=mn, site=l.msg, where=l.where, native=out, files=files)
     def on_budget(l, I):
